@@ -31,8 +31,32 @@ pub fn us() -> i64 {
     }
 }
 
+/// Scenario epochs: threads of a scenario that never come back (a sender blocked for ever on a rendezvous channel is
+/// leaked, not joined) may wake up while a LATER scenario is being recorded, e.g. when their channel disconnects.
+/// What they log then does not belong to that scenario: events of a thread whose epoch is not the current one are dropped.
+static EPOCH: std::sync::atomic::AtomicU64 = std::sync::atomic::AtomicU64::new(0);
+thread_local! {
+    static MY_EPOCH: std::cell::Cell<u64> = const { std::cell::Cell::new(0) };
+}
+
+/// Start a new scenario epoch (called by the controller thread); returns it for the threads it spawns.
+pub fn new_epoch() -> u64 {
+    let e = EPOCH.fetch_add(1, std::sync::atomic::Ordering::SeqCst) + 1;
+    MY_EPOCH.with(|m| m.set(e));
+    e
+}
+
+/// Called first thing by every thread spawned for the scenario of epoch `e`.
+pub fn join_epoch(e: u64) {
+    MY_EPOCH.with(|m| m.set(e));
+}
+
 /// Append one event.  `fields` must be a JSON object; `"e"` is set to `name`.
 pub fn ev(name: &str, fields: Value) {
+    let mine = MY_EPOCH.with(|m| m.get());
+    if mine != 0 && mine != EPOCH.load(std::sync::atomic::Ordering::SeqCst) {
+        return;
+    }
     let mut m = match fields {
         Value::Object(m) => m,
         Value::Null => Map::new(),
